@@ -3528,6 +3528,11 @@ static Token *function(Token *tok, Type *basety, VarAttr *attr) {
     if (!fn->is_static && attr->is_static)
       error_tok(tok, "static declaration follows a non-static declaration");
     fn->is_definition = fn->is_definition || equal(tok, "{");
+
+    // A declaration in a block makes the function visible in that
+    // block, hiding an object of the same name in an enclosing scope.
+    if (scope->next)
+      push_scope(name_str)->var = fn;
   } else {
     fn = new_gvar(name_str, ty);
     fn->is_function = true;
